@@ -27,10 +27,17 @@ SetOf(seq) == {seq[i] : i \in 1..Len(seq)}
 Has(r, f) == f \in DOMAIN r
 
 MkCtx(o) ==
-    [script |-> H(o.script), sigver |-> o.sigver,
-     flags |-> IF Has(o, "fmods") THEN ModifyFlags(StrToCodes(o.fmods))[2] ELSE SetOf(o.flags), z |-> o.z,
-     lim |-> RealLimits, hasTx |-> FALSE,
-     pretend |-> IF Has(o, "pretend") THEN {<<H(o.pretend[i][1]), H(o.pretend[i][2])>> : i \in 1..Len(o.pretend)} ELSE {}]
+    LET hasTx == Has(o, "tx") /\ o.tx # ""
+    IN [script |-> H(o.script), sigver |-> o.sigver,
+        flags |-> IF Has(o, "fmods") THEN ModifyFlags(StrToCodes(o.fmods))[2] ELSE SetOf(o.flags), z |-> o.z,
+        lim |-> RealLimits, hasTx |-> hasTx,
+        tx |-> IF hasTx THEN Parse(H(o.tx))[2] ELSE <<>>,
+        nin |-> IF hasTx THEN o.nin ELSE 0,
+        amount |-> IF hasTx THEN H(o.amount) ELSE <<>>,
+        spent |-> IF hasTx /\ Has(o, "spent") THEN [i \in 1..Len(o.spent) |-> [amount |-> H(o.spent[i][1]), script |-> H(o.spent[i][2])]] ELSE <<>>,
+        annex |-> IF Has(o, "annex") /\ o.annex # "" THEN <<TRUE, H(o.annex)>> ELSE <<FALSE, <<>>>>,
+        leafhash |-> IF Has(o, "leafhash") THEN H(o.leafhash) ELSE <<>>,
+        pretend |-> IF Has(o, "pretend") THEN {<<H(o.pretend[i][1]), H(o.pretend[i][2])>> : i \in 1..Len(o.pretend)} ELSE {}]
 
 MkSession(o) ==
     InitSession(MkCtx(o), HexSeq(o.stack), IF Has(o, "succ") THEN H(o.succ) ELSE <<>>, NoTce,
@@ -110,8 +117,28 @@ Judge(ev, exp, opname, endsExecution) ==
                                                                   exp |-> Show(exp), pre |-> Show(sess)], ev))
              /\ mode' = "skip" /\ UNCHANGED <<cov, sess, cur, stats>>
 
+\* the digest the code computed for a single-signature opcode must be the specification's digest (C02)
+DigestMismatch(ev) ==
+    /\ "digest" \in SetOf(cur.cmp) /\ Has(ev, "digests") /\ Len(ev.digests) >= 1
+    /\ ~sess.tce.active /\ sess.pre = "" /\ sess.vm.pc < Len(sess.ctx.script)
+    /\ LET g == GetOp(sess.ctx.script, sess.vm.pc)
+           st == sess.vm.stack
+       IN /\ g.ok /\ AllTrue(sess.vm.cond)
+          /\ \/ (g.op \in {OP_CHECKSIG, OP_CHECKSIGVERIFY} /\ Len(st) >= 2 /\
+                 LET d == DigestOf(sess.ctx, sess.vm, Top(st, 2), Top(st, 1)) IN d[1] /\ d[2] # H(ev.digests[1]))
+             \/ (g.op = OP_CHECKSIGADD /\ Len(st) >= 3 /\
+                 LET d == DigestOf(sess.ctx, sess.vm, Top(st, 3), Top(st, 1)) IN d[1] /\ d[2] # H(ev.digests[1]))
+ExpDigestHex(s) ==
+    LET g == GetOp(s.ctx.script, s.vm.pc)
+        st == s.vm.stack
+        d == IF g.op = OP_CHECKSIGADD THEN DigestOf(s.ctx, s.vm, Top(st, 3), Top(st, 1)) ELSE DigestOf(s.ctx, s.vm, Top(st, 2), Top(st, 1))
+    IN BytesToHex(d[2])
+
 DoRun(ev) ==
-    IF ev.e = "Step" THEN Judge(ev, IF cur.hist THEN StepH(sess) ELSE Step(sess), NextOpName(sess), FALSE)
+    IF ev.e = "Step" /\ DigestMismatch(ev) THEN
+        /\ divs' = Append(divs, Div("signature digest", [op |-> NextOpName(sess), digest |-> ExpDigestHex(sess), pre |-> Show(sess)], ev))
+        /\ mode' = "skip" /\ UNCHANGED <<cov, sess, cur, stats>>
+    ELSE IF ev.e = "Step" THEN Judge(ev, IF cur.hist THEN StepH(sess) ELSE Step(sess), NextOpName(sess), FALSE)
     ELSE IF ev.e = "StepAtEnd" THEN
         \* the tool refuses to step a finished session; that is only right if the session IS finished, and nothing may change
         (IF sess.done /\ Mismatch(sess, ev) = {} THEN /\ cov' = cov \cup {<<"step", "refused-at-end">>} /\ UNCHANGED <<divs, sess, cur, mode, stats>>
